@@ -141,6 +141,15 @@ func Exec(in *Input, tmpDir string) *Obs {
 		}
 		for _, pur := range []purpose.Purpose{purpose.CodeSigning, purpose.Timestamping} {
 			net := newNet(in)
+			ctx, cancel := context.WithCancel(context.Background())
+			if in.CancelAt > 0 && !in.Together {
+				at := in.CancelAt - 1
+				net.OnRequest = func(n int, _ *netsim.Request) {
+					if n == at {
+						cancel()
+					}
+				}
+			}
 			o.guard(fmt.Sprintf("ValidateContext/%d", pur), func() {
 				hf, _ := crl.NewHTTPFetcher(net.Client())
 				if in.Cache {
@@ -160,12 +169,13 @@ func Exec(in *Input, tmpDir string) *Obs {
 				if err != nil {
 					return
 				}
-				v.ValidateContext(context.Background(), revocation.ValidateContextOptions{CertChain: chain, AuthenticSigningTime: st})
+				v.ValidateContext(ctx, revocation.ValidateContextOptions{CertChain: chain, AuthenticSigningTime: st})
 				if in.Cache {
 					// second run: served from the cache where possible
 					v.ValidateContext(context.Background(), revocation.ValidateContextOptions{CertChain: chain, AuthenticSigningTime: st})
 				}
 			})
+			cancel()
 			o.Requests += net.Requests()
 			net = newNet(in)
 			// CheckStatus runs the checks on goroutines without a recover: a
